@@ -48,6 +48,8 @@ theorem c12_source_facts :
       ("MethodSetup", "SETUP"), ("MethodPlay", "PLAY"), ("MethodPause", "PAUSE"), ("MethodTeardown", "TEARDOWN"),
       ("MethodGetParameter", "GET_PARAMETER"), ("MethodSetParameter", "SET_PARAMETER"), ("MethodRecord", "RECORD"),
       ("MethodRedirect", "REDIRECT")] ∧
+    IpcHub.Gen.wspConsts = [("wspProto", "WSP/1.1"), ("prefixBody", "\r\n\r\n"), ("CmdInit", "INIT"), ("CmdJoin", "JOIN"),
+      ("CmdWrap", "WRAP"), ("CmdGetInfo", "GET_INFO"), ("CmdSwitch", "SWITCH"), ("FieldSeq", "seq"), ("FieldChannel", "channel")] ∧
     IpcHub.Gen.statusCodes = [("StatusOK", 200), ("StatusBadRequest", 400), ("StatusForbidden", 403), ("StatusNotFound", 404),
       ("StatusInvalidParameter", 451), ("StatusMethodNotValidInThisState", 455), ("StatusUnsupportedTransport", 461),
       ("StatusInternalServerError", 500)] := by
